@@ -233,6 +233,20 @@ def stateOracles (s : CS) (fwd : Bool) : List (String × Bool) :=
    ("C09.loop_total", totalOK s), ("C06.loop_total", totalOK s),
    ("C01.loop_exposure", exposureOK s), ("C06.loop_exposure", exposureOK s)]
 
-def stepOracles (_pre : CS) (_lab : String) (_post : CS) : List (String × Bool) := []
+/-- **C02.i on one Rollout reconcile of the closed loop** (the conclusion of `RV.Lemmas.ClosedLoop.rolling_gate`, judged on
+    the state before and after): the index moves only from `StepReady` by one; a gate that is passed was observed open -/
+def stepGate (pre post : CS) : Bool :=
+  match rollingSub pre, rollingSub post with
+  | some s, some s' =>
+    if s'.curIdx ≠ s.curIdx then s.state == .ready && decide (s'.curIdx = s.curIdx + 1) && s'.state == .init
+    else
+      (!RV.Oracle.RolloutSM.podsReady s'.state || RV.Oracle.RolloutSM.podsReady s.state || (preUpgrade s.state && obsUpgraded pre s)) &&
+      (!postRouting s'.state || postRouting s.state || (s.state == .trafficRouting && obsRouted pre s) ||
+         (preUpgrade s.state && obsUpgraded pre s && bypassStep pre s)) &&
+      (!postPause s'.state || postPause s.state || (s.state == .paused && obsPause pre s))
+  | _, _ => true
+
+def stepOracles (pre : CS) (lab : String) (post : CS) (fwd : Bool) : List (String × Bool) :=
+  if lab == "ro" && fwd then [("C02.loop_step_gate", stepGate pre post), ("C06.loop_step_gate", stepGate pre post)] else []
 
 end RV.Oracle.ClosedLoop
